@@ -23,10 +23,10 @@ CHECK_DEADLOCK FALSE
 
 def mc_cfg(mode, **kw):
     d = dict(Alphabet="{0}", MaxLen=0, Prefixes="{0}", StoreKinds='{"plain"}', MaxKeys=1, KeyDomain="{0}", MaxSeq=0,
-             NEntries=1, SizeBeforeAssign="FALSE", Radix=4)
+             NEntries=1, SizeBeforeAssign="FALSE", Radix=4, Dups="FALSE", EqualIsGreater="FALSE")
     d.update(kw)
     spec = "FairSpec" if mode == "find" else "Spec"
-    inv = {"order": "WriterOrderIsReaderOrder", "find": "FindSound FindComplete LoopInv ModesAgree FindBounded",
+    inv = {"order": "WriterOrderIsReaderOrder", "find": "FindSound FindComplete LoopInv ModesAgree FindBounded SortedIsAccepted",
            "refs": "RefsAreFinal HandlesAreFinal"}[mode]
     props = "PROPERTIES FindTerminates\n" if mode == "find" else ""
     return """CONSTANTS
@@ -41,12 +41,14 @@ def mc_cfg(mode, **kw):
   MaxKeys = %s
   KeyDomain = %s
   MaxSeq = %s
+  Dups = %s
+  EqualIsGreater = %s
   NEntries = %s
   SizeBeforeAssign = %s
 SPECIFICATION %s
 INVARIANTS %s Replay
 %sCHECK_DEADLOCK FALSE
-""" % (d["Radix"], mode, d["Alphabet"], d["MaxLen"], d["Prefixes"], d["StoreKinds"], d["MaxKeys"], d["KeyDomain"], d["MaxSeq"],
+""" % (d["Radix"], mode, d["Alphabet"], d["MaxLen"], d["Prefixes"], d["StoreKinds"], d["MaxKeys"], d["KeyDomain"], d["MaxSeq"], d["Dups"], d["EqualIsGreater"],
        d["NEntries"], d["SizeBeforeAssign"], spec, inv, props)
 
 
@@ -247,6 +249,7 @@ def design_level(rep, tier, which):
         runs.append(("order", mc_cfg("order", Alphabet="{0, 1, 2}", MaxLen=3, Prefixes="{0, 1, 2, 3}", StoreKinds='{"plain", "indexed"}',
                                       MaxKeys=2 if tier == "quick" else 3)))
         runs.append(("find", mc_cfg("find", KeyDomain="{0, 1, 2, 3, 4, 5, 6, 7, 8}", MaxSeq=7)))
+        runs.append(("find", mc_cfg("find", KeyDomain="{0, 1, 2, 3, 4}", MaxSeq=4, Dups="TRUE")))
     else:
         runs.append(("refs", mc_cfg("refs", NEntries=4)))
     for name, cfg in runs:
